@@ -75,6 +75,8 @@ def expected_attr(spec, idx, point):
         return spec["k"] * point[spec["p"]][0]
     if f == "pvec":
         return spec["k"][idx[-1]] * point[spec["p"]][0]
+    if f == "pref":
+        return point[spec["p"]][idx[-1] if spec["el"] is None else spec["el"]]
     raise HarnessError("attribute spec " + repr(spec))
 
 
@@ -347,7 +349,11 @@ def check_case(ctx, case, drv):
                 bad = True
                 break
             if case.get("ieqs"):
-                i0, i1 = residual(m0, p0, "initial"), residual(m1, p1, "initial")
+                i0 = residual(m0, p0, "initial")
+                try:
+                    i1 = residual(m1, p1, "initial")
+                except Exception as ex:
+                    i1 = ["%s: %s" % (type(ex).__name__, str(ex)[:120])]
                 if len(i0) != len(i1) or any(not same_number(x, y) for x, y in zip(i0, i1)):
                     ctx.violation("expanded initial residual differs from the unexpanded one under the renaming", case,
                                   expected={"point": p0, "residual": i0}, observed={"point": p1, "residual": i1},
@@ -356,7 +362,10 @@ def check_case(ctx, case, drv):
                     break
             if m0.delay_states:
                 d0 = residual(m0, p0, "delay")
-                d1 = residual(m1, p1, "delay")
+                try:
+                    d1 = residual(m1, p1, "delay")
+                except Exception as ex:
+                    d1 = ["%s: %s" % (type(ex).__name__, str(ex)[:120]), None]
                 # m0: [expr_1 (vector), dur_1, ...]; m1: [expr_1[1,1], dur_1, expr_1[2,1], dur_1, ...]
                 want = []
                 for k in range(0, len(d0), 2):
@@ -411,7 +420,7 @@ def attr_json(spec):
         return {"kind": "list", "v": _ints(spec["v"])}
     if f == "innerfill":
         return {"kind": "dm", "shape": spec["dims"] + [1] * (2 - len(spec["dims"]))}
-    if f == "pvec":
+    if f in ("pvec", "pref"):
         return {"kind": "mx"}
     raise HarnessError(repr(spec))
 
@@ -528,7 +537,7 @@ def run(ctx):
         ctx.case(c, nontrivial=True, key=c["text"])
         check_case(ctx, c, drv)
     quick = ctx.tier == "quick"
-    n = 120 if quick else 2900
+    n = 250 if quick else 6000
     unsupported = 0
     for i in range(n):
         if ctx.time_left() < 0:
@@ -567,4 +576,4 @@ MANIFEST = dict(
     technique="Lean 4 proof (arithmetic identity of reshape/transpose under column-major storage, injectivity of the "
               "naming, structural induction over expressions) + model/implementation correspondence",
 )
-READY = False
+READY = True
